@@ -15,19 +15,19 @@ CHECKS = {
    "Fault-free configuration of the same world, every hop through the real codecs, compared event by event with an i128 ledger over boundary-biased balances and amounts; bounded-step completion of every honest step.",
    "deterministic simulation: seeded fault-free histories vs i128 reference ledger, bounded-step liveness"),
  "C05": ("exploration", "4 (C05)",
-   "The merchant's pending payment (real Unrevoked) is fed wrong / foreign / corrupted revocation candidates before the right one by an adversarial carrier; wrong ones must hand the payment back, the right one must then complete it.",
-   "deterministic simulation: message substitution across sessions and wire corruption of the lock message, recovery after faults"),
+   "The merchant's pending payment (real Unrevoked) is fed wrong / foreign / corrupted / compensated revocation candidates before the right one by an adversarial carrier; wrong ones must hand the payment back, the right one must then complete it. Plus: entropy sweep over every draw of Ready::start, a lying customer committing to a decoy lock (C02's forger), and revocation pairs whose SHA3 digest lies in chosen bands around the group order fed to decoder and generator.",
+   "deterministic simulation: message substitution across sessions, wire corruption of the lock message, entropy faults, Byzantine customer; recovery after faults"),
  "C14": ("exploration", "4 (C14)",
-   "Post-run check over the recorded message history of multi-channel runs: atom reuse against everything the merchant has seen, and secrets of the customer's stage image at send time.",
-   "deterministic simulation: recorded multi-channel histories, whole-history reuse / leakage oracle"),
+   "Post-run check over the recorded message history of multi-channel runs: atom reuse against everything the merchant has seen, secrets of the customer's stage image at send time, and the commitment scalar masking each hidden value (computed from the customer's state and the merchant's challenge read through the hook): not revealed, full-size, not shared across link classes. A third of the runs inject a zero draw into the customer's generator.",
+   "deterministic simulation: recorded multi-channel histories, whole-history reuse / leakage / mask oracle, entropy faults"),
  "C15": ("fault_enumeration", "4 (C15)",
    "Every atom of every harvested encoding replaced by each invalid / boundary encoding and decoded by the real decoder; plus a wire-on vs wire-off differential execution of seeded protocol histories.",
    "fault enumeration on wire/storage atoms + differential simulated runs (in-process vs encoded hops)"),
  "C16": ("fault_enumeration", "4 (C16)",
-   "Decoders fed mutated encodings through slices and through a faulty Read (short reads, EINTR, EOF, I/O error) in a supervised worker process under a tracking, capped allocator.",
+   "Decoders fed mutated encodings (bincode, and serde_json as a second format) through slices and through a faulty Read (short reads, EINTR, EOF, I/O error) in a supervised worker process under a tracking, capped allocator.",
    "fault enumeration: length-prefix / tag / atom corruption, truncation, stream faults, allocator cap, supervised worker process"),
  "C19": ("fault_enumeration", "4 (C19)",
-   "Entropy-seam fault enumeration: an all-zero window of width 1-3 at every recorded draw point of every generator; outputs re-decoded through the crates' validating decoders and checked with pairing relations.",
+   "Entropy-seam fault enumeration: an all-zero window of width 1-3 at every recorded draw point of every generator, plus crafted non-zero scalar streams (signing exponent zero, repeated secret scalars); outputs re-decoded through the crates' validating decoders and checked with pairing relations.",
    "entropy fault enumeration at recorded draw points (SimRng seam)"),
  "C20": ("fault_enumeration", "4 (C20)",
    "Twin execution: a never-stored customer vs a customer crashed and restored from its durable image at a drawn crash set, same keyed entropy, same replies; histories must be byte-identical.",
@@ -42,7 +42,7 @@ CHECKS = {
    "An eavesdropper records every message of seeded histories and re-presents it in other sessions / channels / merchants and with one verifier-side tuple component substituted; closing messages re-assembled with one field replaced.",
    "deterministic simulation: cross-session replay and single-component substitution by an eavesdropper actor"),
  "C12": ("fault_enumeration", "4 (C12)",
-   "In-flight alteration of each non-response atom of a proof after the challenge is fixed; the verifier's challenge (public API at library level, hook inside initialize/allow_payment at zkAbacus level) must move.",
+   "In-flight alteration of each non-response atom of a proof after the challenge is fixed (other element, inverse element), wholesale swaps of same-shaped sub-structures, adjacent scalars trading a byte across their boundary; the verifier's challenge (public API at library level, hook inside initialize/allow_payment at zkAbacus level) must move.",
    "tamper-after-challenge fault enumeration per atom, challenge observed through the hook"),
  "C17": ("exploration", "4 (C17)",
    "Ideal-ledger comparison over the property's full boundary lattice with overflow checks on, plus Byzantine wire-decoded amounts reaching the real merchant. Restricted claim: 'all 64-bit inputs' beyond lattice and random draws is sampled.",
